@@ -669,14 +669,18 @@ spifconf_shell_expand(spif_charptr_t s)
           case '$':
               D_CONF(("Environment variable detected.  Evaluating.\n"));
               if (!in_single) {
+                  spif_char_t closer = 0;
+
                   EnvVar = (spif_charptr_t) MALLOC(128);
                   switch (*(++pbuff)) {
                     case '{':
-                        for (pbuff++, k = 0; *pbuff != '}' && k < 127; k++, pbuff++)
+                        closer = '}';
+                        for (pbuff++, k = 0; *pbuff && *pbuff != '}' && k < 127; k++, pbuff++)
                             EnvVar[k] = *pbuff;
                         break;
                     case '(':
-                        for (pbuff++, k = 0; *pbuff != ')' && k < 127; k++, pbuff++)
+                        closer = ')';
+                        for (pbuff++, k = 0; *pbuff && *pbuff != ')' && k < 127; k++, pbuff++)
                             EnvVar[k] = *pbuff;
                         break;
                     default:
@@ -686,13 +690,22 @@ spifconf_shell_expand(spif_charptr_t s)
                   }
                   EnvVar[k] = 0;
                   tmp = (spif_charptr_t) getenv((char *) EnvVar);
+                  FREE(EnvVar);
                   if (tmp && *tmp) {
-                      spiftool_safe_strncpy(newbuff, tmp, max - j);
+                      /* The value goes where the reference was. */
+                      spiftool_safe_strncpy(newbuff + j, tmp, max - j);
                       cnt1 = strlen((char *) tmp) - 1;
                       cnt2 = max - j - 1;
                       j += MIN(cnt1, cnt2);
+                  } else {
+                      /* Nothing to insert; undo the loop's j++. */
+                      j--;
                   }
-                  pbuff--;
+                  if (!closer || (*pbuff != closer)) {
+                      /* Not sitting on the closing brace (which the loop steps over):
+                         back up so that the next character is looked at. */
+                      pbuff--;
+                  }
               } else {
                   newbuff[j] = *pbuff;
               }
